@@ -339,6 +339,110 @@ def constructors_unit(plan):
         plan.dropped.append(constructors_unit.__doc__.strip())
 
 
+COMP_MODEL = """
+// model for `set_comprehension` (src/interpreter/src/expressions.rs, whole body): the qualifiers yield a list of environments (uninterpreted), the
+// element expression is evaluated once per environment, in order; the values go to the native function registered as "set/comprehension"
+#[derive(Clone, Copy, PartialEq, Eq, Structural)]
+pub struct Value { pub id: u64 }
+#[derive(Clone, Copy, PartialEq, Eq, Structural)]
+pub struct Environment { pub id: u64 }
+pub struct Expression { pub id: u64 }
+pub struct Qualifiers { pub id: u64 }
+pub struct SetComprehension { pub qualifiers: Qualifiers, pub expression: Expression, pub id: u64 }
+pub struct MechError { pub id: u64 }
+#[derive(Clone, Copy)]
+pub struct Compiler { pub id: u64 }
+pub struct Interpreter { pub id: u64, pub log: Ghost<Seq<Environment>> }      // the environments the element expression was evaluated in
+pub uninterp spec fn envs_of(q: Qualifiers, cid: u64, p: u64) -> Option<(Seq<Environment>, u64)>;   // comprehension_environments (None = error)
+pub uninterp spec fn ev(e: Expression, env: Environment, p: u64) -> Option<Value>;
+pub uninterp spec fn compiler_of(p: u64, name: u64) -> Option<Compiler>;
+pub uninterp spec fn run_native(c: Compiler, values: Seq<Value>, p: u64) -> Option<Value>;
+pub uninterp spec fn comp_id(c: u64) -> u64;
+pub uninterp spec fn set_comprehension_name() -> u64;                         // hash_str("set/comprehension")
+#[verifier::external_body]
+pub fn debug_hash_comp(c: &SetComprehension) -> (r: u64) ensures r == comp_id(c.id), { unimplemented!() }
+#[verifier::external_body]
+pub fn hash_name() -> (r: u64) ensures r == set_comprehension_name(), { unimplemented!() }
+#[verifier::external_body]
+pub fn comprehension_environments(q: &Qualifiers, cid: u64, p: &Interpreter) -> (r: Result<(Vec<Environment>, Interpreter), MechError>)
+  ensures (match r { Ok((es, np)) => envs_of(*q, cid, p.id) == Some((es@, np.id)) && np.log@.len() == 0, Err(_) => envs_of(*q, cid, p.id) is None }),
+{ unimplemented!() }
+#[verifier::external_body]
+pub fn expression(e: &Expression, env: Option<&Environment>, p: &mut Interpreter) -> (r: Result<Value, MechError>)
+  requires env is Some,
+  ensures final(p).id == old(p).id, final(p).log@ == old(p).log@.push(*env.unwrap()),
+    (match r { Ok(v) => ev(*e, *env.unwrap(), old(p).id) == Some(v), Err(_) => ev(*e, *env.unwrap(), old(p).id) is None }),
+{ unimplemented!() }
+#[verifier::external_body]
+pub fn lookup_compiler(p: &Interpreter, name: &u64) -> (r: Option<Compiler>) ensures r == compiler_of(p.id, *name), { unimplemented!() }
+#[verifier::external_body]
+pub fn execute_native_function_compiler(c: Compiler, values: &Vec<Value>, p: &Interpreter) -> (r: Result<Value, MechError>)
+  ensures (match r { Ok(v) => run_native(c, values@, p.id) == Some(v), Err(_) => run_native(c, values@, p.id) is None }),
+{ unimplemented!() }
+#[verifier::external_body]
+pub fn vec_take_env(v: &Vec<Environment>, i: usize) -> (r: Environment) requires i < v@.len(), ensures r == v@[i as int], { unimplemented!() }
+#[verifier::external_body]
+pub fn missing_function_error(id: u64) -> (e: MechError) { unimplemented!() }
+// the element values: the expression evaluated in environments 0..n, in order (None = some evaluation failed)
+pub open spec fn elems(e: Expression, envs: Seq<Environment>, n: int, p: u64) -> Option<Seq<Value>> decreases n {
+  if n <= 0 { Some(Seq::<Value>::empty()) } else { match elems(e, envs, n - 1, p) { None => None, Some(vs) => match ev(e, envs[n - 1], p) { None => None, Some(v) => Some(vs.push(v)) } } }
+}
+pub proof fn lemma_elems_none(e: Expression, envs: Seq<Environment>, n: int, m: int, p: u64)
+  requires 0 <= n <= m, ensures elems(e, envs, n, p) is None ==> elems(e, envs, m, p) is None, decreases m - n,
+{ if n < m { lemma_elems_none(e, envs, n, m - 1, p); } }
+"""
+
+
+def comprehension_unit(plan):
+    """`set_comprehension` (src/interpreter/src/expressions.rs), whole body: `hash_str(&format!("{:?}", set_comp))` -> `debug_hash_comp(set_comp)`; `hash_str("set/comprehension")` -> `hash_name()`;
+    `for env in envs {` -> index loop with `vec_take_env`; `&new_p` -> `&mut new_p` (ghost log); the block `{ functions.borrow().function_compilers.get(&id).copied() }` ->
+    `lookup_compiler(p, &id)` and `let functions = p.functions();` dropped; error construction -> `missing_function_error(id)`"""
+    from vlib import read_repo, extract_fn, VerusUnit, AnchorLost, find_code
+    name = "C14.verus.set_comprehension.one_element_per_environment"
+    plan.ob(name, "verus", "proved", functions=["src/interpreter/src/expressions.rs: set_comprehension (whole body)"],
+            what="a set comprehension evaluates its element expression exactly once in every environment its qualifiers generate, in order, and hands exactly those values to the set constructor registered as set/comprehension (whose result -- a MechSet built by from_vec: C14.constructor.* -- is the value); a failing qualifier or element is an error")
+    text = read_repo("src/interpreter/src/expressions.rs")
+    sig, body = extract_fn(text, "set_comprehension")
+    b = re.sub(r"//[^\n]*", "", body[body.index("{") + 1:body.rindex("}")]).replace("\r", "")
+    b = vlib.canon_bindings(sig, b, ["set_comp", "p"], ['comprehension_id', 'envs', 'new_p', 'values', 'env', 'val', 'functions', 'set_define_id', 'set_define', 'compiler'])
+    b, n0 = re.subn(r"hash_str\(\s*&format!\(\s*\"\{:\?\}\"\s*,\s*set_comp\s*\)\s*\)", "debug_hash_comp(set_comp)", b)
+    b, n1 = re.subn(r"hash_str\(\s*\"set/comprehension\"\s*\)", "hash_name()", b)
+    b = b.replace("let (envs, new_p) =", "let (envs, mut new_p) =")
+    INV = ("        invariant new_p.id == np0, i_ <= envs@.len(), envs_of(set_comp.qualifiers, comp_id(set_comp.id), p.id) == Some((envs@, np0)),\n"
+           "          new_p.log@ =~= envs@.subrange(0, i_ as int), elems(set_comp.expression, envs@, i_ as int, np0) == Some(values@),\n")
+    b, n2 = re.subn(r"for\s+env\s+in\s+envs\s*\{", "let ghost np0 = new_p.id;\n    for i_ in 0..envs.len()\n" + INV + "    {\n        let env = vec_take_env(&envs, i_);\n        proof { reveal_with_fuel(elems, 2); lemma_elems_none(set_comp.expression, envs@, i_ + 1, envs@.len() as int, np0); assert(envs@.subrange(0, i_ + 1) =~= envs@.subrange(0, i_ as int).push(envs@[i_ as int])); }", b)
+    b = b.replace("&new_p", "&mut new_p")
+    b, n3 = re.subn(r"let\s+functions\s*=\s*p\.functions\(\)\s*;", "", b)
+    m = re.search(r"let\s+set_define\s*=\s*\{", b)
+    if not m or (n0, n1, n2, n3) != (1, 1, 1, 1):
+        raise AnchorLost("set_comprehension: statements outside the transcription rules")
+    e = vlib.match_brace(b, m.end() - 1)
+    blk = b[m.end():e - 1]
+    if not re.fullmatch(r"\s*functions\s*\.borrow\(\)\s*\.function_compilers\s*\.get\(\s*&set_define_id\s*\)\s*\.copied\(\)\s*", blk):
+        raise AnchorLost("set_comprehension: the compiler lookup has an unexpected shape")
+    b = b[:m.start()] + "proof { assert(envs@.subrange(0, envs@.len() as int) =~= envs@); }\n    let set_define = lookup_compiler(p, &set_define_id)" + b[e:]
+    while True:
+        mm = re.search(r"\bErr\s*\(\s*MechError::new\(", b)
+        if not mm:
+            break
+        ee = vlib.match_brace(b, mm.start() + b[mm.start():].index("("), "(", ")")
+        b = b[:mm.start()] + "Err(missing_function_error(set_define_id))" + b[ee:]
+    ENS = """  ensures (match envs_of(set_comp.qualifiers, comp_id(set_comp.id), p.id) {
+      None => res is Err,
+      Some((envs, np)) => match elems(set_comp.expression, envs, envs.len() as int, np) {
+        None => res is Err,
+        Some(vals) => match compiler_of(p.id, set_comprehension_name()) {
+          None => res is Err,
+          Some(c) => (match res { Ok(v) => run_native(c, vals, p.id) == Some(v), Err(_) => run_native(c, vals, p.id) is None }),
+        },
+      },
+    }),
+"""
+    fn = "fn set_comprehension(set_comp: &SetComprehension, p: &Interpreter) -> (res: Result<Value, MechError>)\n" + ENS + "{\n" + b + "\n}\n"
+    plan.verus.append(VerusUnit("c14_comprehension", vlib.verus_file([COMP_MODEL, fn, vlib.verus_canary("canary_comp", "x: u64", [])]), {"set_comprehension": name}, ["canary_comp"]))
+    plan.dropped.append(comprehension_unit.__doc__.strip())
+
+
 def literal_unit(plan):
     """(F) the kind-homogeneity check of `set()` (src/interpreter/src/structures.rs): the statements from
     `let element_kind = ..` up to (excluding) the construction of the set, verbatim except `return Err(..)` -> `return None`
@@ -390,6 +494,10 @@ def plan(plan, tier, seed):
         literal_unit(plan)
     except Exception as e:
         plan.anchor_errors.append(("C14.literal.*", repr(e)))
+    try:
+        comprehension_unit(plan)
+    except Exception as e:
+        plan.anchor_errors.append(("C14.verus.set_comprehension.one_element_per_environment", repr(e)))
     try:
         constructors_unit(plan)
     except Exception as e:
